@@ -25,7 +25,7 @@ Representation of the hardware of an accelerator
 """
 
 from copy import deepcopy
-from typing import Dict, Set, Type, TypeVar
+from typing import Dict, Optional, Set, Type, TypeVar
 
 from teaal.ir.component import *
 from teaal.ir.level import Level
@@ -56,6 +56,9 @@ class Hardware:
         self.program = program
 
         self.components: Dict[str, Component] = {}
+        # Configurations may reuse component names; keep each configuration's
+        # own components
+        self.config_components: Dict[str, Dict[str, Component]] = {}
 
         # Get the configuration for each Einsum
         self.configs = {}
@@ -76,12 +79,23 @@ class Hardware:
                     config +
                     " must have a single root level")
 
+            self.config_components[config] = {}
+            self.curr_config = config
             self.tree[config] = self.__build_level(subtree[0])
 
-    def get_component(self, name: str) -> Component:
+    def get_component(
+            self,
+            name: str,
+            einsum: Optional[str] = None) -> Component:
         """
-        Get component by its name
+        Get component by its name; if the Einsum is given, the component of
+        that Einsum's configuration
         """
+        if einsum is not None:
+            config_components = self.config_components[self.configs[einsum]]
+            if name in config_components:
+                return config_components[name]
+
         return self.components[name]
 
     def get_components(self, einsum: str, class_: Type[T]) -> List[T]:
@@ -90,7 +104,7 @@ class Hardware:
         """
         components: List[T] = []
         for name in self.bindings.get_bindings()[einsum]:
-            component = self.components[name]
+            component = self.get_component(name, einsum)
             if isinstance(component, class_):
                 components.append(component)
         return components
@@ -227,6 +241,8 @@ class Hardware:
 
         component = class_(name, num_instances, local["attributes"], binding)
         self.components[component.get_name()] = component
+        self.config_components[self.curr_config][component.get_name()] = \
+            component
 
         return component
 
